@@ -24,6 +24,40 @@ pub open spec fn lz_copy(s: Seq<u8>, len: nat, dist: int) -> Seq<u8>
     if len == 0 { s } else { lz_copy(s.push(s[s.len() - dist]), (len - 1) as nat, dist) }
 }
 
+pub proof fn lemma_lz_copy_step(s: Seq<u8>, len: nat, dist: int)
+    requires 1 <= dist <= s.len(),
+    ensures lz_copy(s, len + 1, dist) == lz_copy(s, len, dist).push(lz_copy(s, len, dist)[lz_copy(s, len, dist).len() - dist]),
+        lz_copy(s, len, dist).len() == s.len() + len,
+    decreases len
+{
+    reveal_with_fuel(lz_copy, 2);
+    if len == 0 {
+    } else {
+        let s1 = s.push(s[s.len() - dist]);
+        lemma_lz_copy_step(s1, (len - 1) as nat, dist);
+    }
+}
+
+pub proof fn lemma_lz_copy_prefix(s: Seq<u8>, i: nat, len: nat, dist: int)
+    requires 1 <= dist <= s.len(), i <= len,
+    ensures lz_copy(s, i, dist).is_prefix_of(lz_copy(s, len, dist)), s.is_prefix_of(lz_copy(s, i, dist)),
+    decreases len
+{
+    lemma_lz_copy_step(s, len, dist);
+    lemma_lz_copy_step(s, i, dist);
+    if len == 0 {
+        assert(lz_copy(s, 0, dist) == s);
+    } else {
+        lemma_lz_copy_step(s, (len - 1) as nat, dist);
+        assert(lz_copy(s, (len - 1) as nat, dist).is_prefix_of(lz_copy(s, len, dist)));
+        if i < len {
+            lemma_lz_copy_prefix(s, i, (len - 1) as nat, dist);
+        } else {
+            lemma_lz_copy_prefix(s, (len - 1) as nat, (len - 1) as nat, dist);
+        }
+    }
+}
+
 // ---- vacuity canary: this obligation MUST be reported as failing on every run -------------------
 pub proof fn vacuity_canary_must_fail(x: int)
     ensures x == x + 1,   // [CANARY]
